@@ -35,6 +35,8 @@ RoutingOk(rq, job, obs) ==
 
 RunOk(rq, job, obs) ==
   /\ obs.starts = 1                               \* exactly once
+  /\ obs.jhead_ok                                 \* every journal entry of the request begins with its DTSTAMP
+  /\ obs.warm_ok                                  \* another task of the same request that went first was run, mailed and journalled too
   /\ obs.pwd = rq.wd /\ obs.umask = rq.umask /\ obs.stdin = rq.stdin /\ obs.shell = rq.shell
   /\ IF job.sig = 0 THEN obs.jexit = job.exit /\ obs.jsig = 0
      ELSE obs.jsig = job.sig                      \* the true terminating signal
